@@ -19,7 +19,9 @@ ASSUMPTIONS = ['--blame-timestamp-output-format is always given (the default ren
 CHUNK = 6
 BIN = os.path.join(runner.STUBS, 'bin')
 PALETTES = [['#102030', '#203040'], ['#111111', '#222222', '#333333'], ['#400000', '#004000', '#000040', '#404000'],
-            ['#101010', '#202020', '#303030', '#404040', '#505050', '#606060'], ['52', '22', '17'], ['red', 'blue']]
+            ['#101010', '#202020', '#303030', '#404040', '#505050', '#606060'], ['52', '22', '17'], ['red', 'blue'],
+            # distinct colours that are neighbours (they fall on one cell of the 256-colour cube)
+            ['#2c2c2c', '#303030'], ['#5f0000', '#600101', '#5e0100'], ['#0000d7', '#0101d6', '#00d700']]
 AUTHORS = ['Dan Davison', 'Ann', 'Jörg Müller', '山田 太郎', 'x y z w', 'Thomas Otto', "O'Neil", 'a-b c', 'Bo', 'A', 'J. (Jim) Doe', '语']
 
 
@@ -117,7 +119,7 @@ def run_item(item):
     tabs = rng.choice([8, 4, 2])
     with_zone = rng.random() < 0.5
     tsfmt = '%Y-%m-%d %H:%M' + (' %z' if with_zone else '')
-    opts = {'--paging': 'never', '--true-color': 'always', '--blame-palette': ' '.join(palette), '--blame-format': fmt,
+    opts = {'--paging': 'never', '--true-color': rng.choice(['always', 'always', 'never']), '--blame-palette': ' '.join(palette), '--blame-format': fmt,
             '--blame-timestamp-output-format': tsfmt, '--blame-separator-format': sepfmt, '--syntax-theme': 'none',
             '--tabs': tabs}
     if rng.random() < 0.3:
@@ -145,6 +147,13 @@ def run_item(item):
     if len(rws) != len(model):
         return bad('row-count', 'number of output rows differs from the number of blame lines', len(model), len(rws))
     pal = [term.color_of(p) if p.startswith('#') else (('idx', int(p)) if p.isdigit() else ('idx', {'red': 1, 'blue': 4}[p])) for p in palette]
+    from . import c12 as _c12
+
+    def nearest256(col):
+        if col is None or col[0] != 'rgb':
+            return col
+        return ('idx', min(range(16, 256), key=lambda n: _c12.dist(_c12.palette_rgb(n), col[1])))
+    pal256 = [nearest256(c) for c in pal]
     colors = []
     keys = []
     for i, (l, r) in enumerate(zip(model, rws)):
@@ -204,7 +213,8 @@ def run_item(item):
     last_color = {}
     for i in range(len(model)):
         c_ = colors[i]
-        if c_ not in pal:
+        if c_ not in pal and not (opts['--true-color'] == 'never' and c_ in pal256):
+            # (without 24-bit colour a palette entry may come out as its nearest cell of the 256-colour palette)
             return bad('colour-not-in-palette', 'row %d is painted with a colour that is not in the palette' % i, pal, c_)
         if i > 0:
             counters['colour_steps'] += 1
@@ -222,7 +232,7 @@ def run_item(item):
     return held(sig=(pattern, tuple(keys.index(k) for k in keys) if kind != 'real' else len(set(keys)), len(palette), fmt_cls, sepcls, delivery),
                 nontrivial=len(set(keys)) >= 2, counters=counters, sets=sets,
                 sample={'pattern': pattern, 'key_sequence': [keys.index(k) for k in keys], 'palette': palette,
-                        'colours': [pal.index(c_) for c_ in colors], 'input_head': text.split('\n')[:2]})
+                        'colours': [pal.index(c_) if c_ in pal else pal256.index(c_) for c_ in colors], 'input_head': text.split('\n')[:2]})
 
 
 def floors(ctx, agg):
